@@ -93,8 +93,8 @@ class _TrajectoryDataFilter:
     def setup_seen_zero(self, height: float, barrel_elevation: float, look_angle: float) -> None:
         if height >= 0:
             self.seen_zero |= TrajFlag.ZERO_UP
-        elif height < 0 and barrel_elevation < look_angle:
-            self.seen_zero |= TrajFlag.ZERO_DOWN
+        # A muzzle below the sight line with the barrel pointing below it does not mean the trajectory never crosses:
+        # on an inclined sight line a head wind lifts it across and back, so ZERO_DOWN must stay armed
         self.look_angle: float = look_angle
 
     def clear_current_flag(self):
